@@ -61,6 +61,7 @@ pub fn exec(a: &[&str]) -> String {
                     "set" => d.set_mut(f[1].parse().unwrap(), f[2].parse().unwrap()),
                     "clear" => d.clear(),
                     "blank" => d = DnaString::blank(f[1].parse().unwrap()),
+                    "own" => { let s = d.slice(f[1].parse().unwrap(), f[2].parse().unwrap()); d = if f[3] == "1" { s.rc().to_owned() } else { s.to_owned() }; }
                     "fb" => d = DnaString::from_bytes(&digits(f[1])),
                     "fa" => d = DnaString::from_acgt_bytes(&unhex(f[1])),
                     "fs" => d = DnaString::from_dna_string(&unhex(f[1]).iter().map(|b| *b as char).collect::<String>()),   // the bytes are code points (0..255)
@@ -144,11 +145,19 @@ pub fn gen(rng: &mut Rng, _tier: &str) -> String {
     let nops = rng.range(1, 25);
     let mut len = 0usize; // track the length so that `set` stays in range
     let mut ops: Vec<String> = Vec::new();
-    if rng.chance(1, 25) {
+    if rng.chance(1, 15) {
         // a long string first: renderings, iteration and comparison loops have their own internal batch sizes
         let n = *rng.pick(&[255usize, 256, 257, 512, 1023, 1024, 1025, 1100, 2048, 2049, 4100]);
         ops.push(format!("fb.{}", show_digits(&rand_bases(rng, n))));
         len = n;
+        if rng.chance(1, 2) {
+            // ... and an owned copy of a long window of it (block-aligned start, end inside a block) that the history then grows
+            let a = 32 * rng.below(3);
+            let lo = 180usize.min(n - a);
+            let b = (a + lo + rng.below(n - a - lo + 1)).min(n);
+            ops.push(format!("own.{}.{}.{}", a, b, rng.chance(1, 5) as u8));
+            len = b - a;
+        }
     }
     for _ in 0..nops {
         match rng.below(14) {
@@ -168,6 +177,13 @@ pub fn gen(rng: &mut Rng, _tier: &str) -> String {
                 let n = rng.below(nb * 4 + 1);
                 ops.push(format!("pb.{}.{}", tohex(&bytes), n));
                 len += n;
+            }
+            7 if len > 0 && rng.chance(1, 2) => {
+                // replace the string by the owned copy of one of its views (`slice(a, b)[.rc()].to_owned()`)
+                let a = if rng.chance(1, 2) { (32 * rng.below(len / 32 + 1)).min(len) } else { rng.below(len + 1) };
+                let b = a + rng.below(len - a + 1);
+                ops.push(format!("own.{}.{}.{}", a, b, rng.chance(1, 4) as u8));
+                len = b - a;
             }
             7 | 8 if len > 0 => ops.push(format!("set.{}.{}", rng.below(len), rng.below(4))),
             9 if rng.chance(1, 3) => {
